@@ -1,7 +1,7 @@
 """C13 - never more live connection tokens than max_conns; freed slots wake waiters."""
 from fvgen import case, parse_case, parse_out
 
-RULE = ("tok_run: limits 1..4, random histories (length 4..60) of get_token on the runner or a clone, poll, drop-token, drop-pending-request, hand-token-to-Token::run-on-an-idle-connection, "
+RULE = ("tok_run: limits 1..4, random histories (length 4..60) of get_token on the runner or a clone, poll, drop-token, drop-pending-request, hand-token-to-Token::run-on-an-idle-connection, Runner::shutdown of a clone whose connections are idle (their slots must return to the shared limit), "
         "single-threaded at the granularity of those operations, one counting waker per request; directed histories: k releases in a row with "
         ">= k waiters queued, cancellation of a notified waiter, barging by a fresh request. Oracle: live tokens <= limit at every step, a first "
         "poll with a free slot is Ready, and whenever a slot is free while registered requests are pending at least one pending request has been "
@@ -31,6 +31,9 @@ def gen_ops(rng, maxc, n):
         elif r < 0.90 and state:
             # hand the token (if request i has one) to Token::run on an idle connection: it stays in use
             ops += [5, rng.choice(list(state))]
+        elif r < 0.94:
+            # shut down a clone (only effective when no unfinished request of it is outstanding)
+            ops += [7, rng.choice([1, 1, 2])]
         elif pend:
             i = rng.choice(pend)
             ops += [4, i]
@@ -65,6 +68,21 @@ def gen_cases(rng, tier):
         ops += [1, 0, 2, maxc, 2, maxc, 1, 1, 2, maxc + 1]
         ops += [3, 0, 2, maxc, 2, maxc + 1]
         yield case("tok_run", [maxc], ops), ["tokens", "directed", "served", "waited"]
+    # directed: a clone is shut down while its connections are idle: their slots return to the shared limit, requests queued on
+    # the other clones are woken and complete
+    for maxc in (1, 2, 3):
+        for other in (0, 2):
+            ops = []
+            for i in range(maxc):
+                ops += [1, 1, 2, i, 5, i]
+            ops += [1, other, 2, maxc, 2, maxc]          # queued on another clone
+            ops += [7, 1]
+            ops += [2, maxc, 3, maxc, 1, other, 2, maxc + 1]
+            yield case("tok_run", [maxc], ops), ["tokens", "directed", "shutdown", "waited"]
+            # ... with one token of the clone still in the caller's hands (not yet a connection): it stays live
+            ops = [1, 1, 2, 0] + sum(([1, 1, 2, i, 5, i] for i in range(1, maxc)), [])
+            ops += [1, other, 2, maxc, 7, 1, 2, maxc, 3, 0, 2, maxc]
+            yield case("tok_run", [maxc], ops), ["tokens", "directed", "shutdown", "waited"]
     # the configured limit is the limit: exactly max_conns requests complete at once, the next one waits — small limits and limits
     # around 2^16 (async servers are told to configure "a much higher number")
     for m in [1, 2, 3, 7, 64, 255, 256, 257, 1000, 65535, 65536, 65537, 70000] + ([2 ** 17 + 1] if not quick else []):
@@ -80,7 +98,7 @@ def nontrivial(line, tags):
 
 
 def min_classes(tier):
-    return {"directed": 30, "cancel": 16, "random": 1000, "served": 4, "fill": 13}
+    return {"directed": 30, "cancel": 16, "random": 1000, "served": 4, "fill": 13, "shutdown": 12}
 
 
 def oracle(line, impl_line):
@@ -100,6 +118,7 @@ def oracle(line, impl_line):
     state = {}
     wakes_at_reg = {}
     nf = 0
+    own, served, dead, nclones = {}, set(), set(), 1
     for k in range(0, len(ops) - 1, 2):
         op, x = ops[k], ops[k + 1]
         row = o[k // 2]
@@ -108,6 +127,8 @@ def oracle(line, impl_line):
             return "more live tokens (%d) than max_conns (%d)" % (live, maxc)
         if op == 1:
             state[nf] = "new"
+            own[nf] = 0 if (x == 0 or x in dead) else x
+            nclones = max(nclones, x + 1)
             nf += 1
         elif op == 2 and state.get(x) in ("new", "pending"):
             free_before = maxc - sum(1 for s in state.values() if s == "live")
@@ -118,8 +139,21 @@ def oracle(line, impl_line):
                     return "a request polled while a slot was free did not complete"
                 state[x] = "pending"
                 wakes_at_reg[x] = wk[x]
-        elif op == 3 and state.get(x) == "live":
+        elif op in (3, 6) and state.get(x) == "live":
             state[x] = "dropped"
+            served.discard(x)
+        elif op == 5 and state.get(x) == "live" and x not in served:
+            if own[x] in dead:
+                state[x] = "dropped"      # a connection of a runner that was shut down ends at once
+            else:
+                served.add(x)
+        elif op == 7 and 1 <= x < nclones and x not in dead and not any(s in ("new", "pending") and own[i] == x for i, s in state.items()):
+            # the clone is shut down: its idle connections end, their tokens are gone; tokens not yet handed to a connection stay
+            dead.add(x)
+            for i in sorted(served):
+                if own[i] == x:
+                    state[i] = "dropped"
+            served = {i for i in served if own[i] != x}
         elif op == 4 and state.get(x) in ("new", "pending"):
             state[x] = "gone"
         free = maxc - sum(1 for s in state.values() if s == "live")
